@@ -284,25 +284,20 @@ static void check_ma(int n, int len, bool cplx, vh::Rng& r) {
         vh::violation("C07/mafilter/count", cfg + vh::fmt(": %d outputs", y.size()));
         return;
     }
-    ld sr = 0, si = 0, mx = 0;
     for (int i = 0; i < len; ++i) {
-        sr += x[i].re;
-        si += x[i].im;
-        if (i >= n) {
-            sr -= x[i - n].re;
-            si -= x[i - n].im;
+        //exact window sum: the reference carries no drift
+        ld sr = 0, si = 0;
+        for (int k = std::max(0, i - n + 1); k <= i; ++k) {
+            sr += x[k].re;
+            si += x[k].im;
         }
-        mx = std::max(mx, hypotl(ld(x[i].re), ld(x[i].im)));
-        if (i % 4096 == 0) {
-            //re-sum exactly to keep the reference free of drift
-            sr = 0;
-            si = 0;
-            for (int k = std::max(0, i - n + 1); k <= i; ++k) {
-                sr += x[k].re;
-                si += x[k].im;
-            }
+        //an n-tap FIR only carries the rounding of its current window; a running sum that is re-summed at least every n samples
+        //carries that of the last 2n samples: the tolerance scale is the largest magnitude among the last 2n inputs
+        ld mx = 0;
+        for (int k = std::max(0, i - 2 * n + 1); k <= i; ++k) {
+            mx = std::max(mx, hypotl(ld(x[k].re), ld(x[k].im)));
         }
-        const ld tol = (4 * n + 16) * ref::EPS * mx;
+        const ld tol = (4 * n + 16) * ref::EPS * mx + 1e-300L;
         const ld err = hypotl(ld(y[i].re) - sr / n, ld(y[i].im) - si / n);
         const ld e2 = hypotl(ld(y[i].re) - yf[i].re, ld(y[i].im) - yf[i].im);
         if (mx > 0) {
